@@ -466,10 +466,17 @@ def amp_element(draw, uid, eq_json, city, force=None, allow_settings=True):
 
 @st.composite
 def chain(draw, lid, direction, eq_json, spans=(1, 3), fused=True, user_amps=True, length_km=None, fiber_kw=None,
-          raman=False):
-    """One direction of a link: elements (list) in order, without the end ROADMs."""
+          raman=False, fibreless=False):
+    """One direction of a link: elements (list) in order, without the end ROADMs.
+    fibreless: sometimes a link without any fibre span (two ROADMs of one office joined by a patch cord = one Fused, or by
+    one amplifier)"""
     tag = f'L{lid}.{direction}'
     els = []
+    if fibreless and draw(st.integers(0, 5)) == 0:
+        if draw(st.booleans()):
+            return [{'uid': f'fused {tag}.b', 'type': 'Fused', 'params': {'loss': draw(st.sampled_from([0.5, 1, 2]))},
+                     'metadata': _meta(tag)}]
+        return [draw(amp_element(f'booster {tag}', eq_json, tag))]
     if user_amps and draw(st.integers(0, 3)) == 0:
         els.append(draw(amp_element(f'booster {tag}', eq_json, tag)))
     elif fused and draw(st.integers(0, 9)) == 0:
@@ -533,9 +540,13 @@ def roadm_element(draw, i, eq_json, own_policy=True):
 
 @st.composite
 def topology(draw, eq_json, n=(2, 5), extra_max=3, parallel=False, chain_kw=None, own_policy=True,
-             per_degree=True, symmetric=None, per_degree_impairments=False):
+             per_degree=True, symmetric=None, per_degree_impairments=False, fixed_links=None):
     """Generated mesh. Returns {'elements','connections'} and truth {'n','links':[(a,b)]}."""
-    k, links = draw(graph(n, extra_max, parallel))
+    if fixed_links is not None:
+        links = [tuple(x) for x in fixed_links]
+        k = max(max(a, b) for a, b in links) + 1
+    else:
+        k, links = draw(graph(n, extra_max, parallel))
     elements, connections = [], []
     roadms = []
     for i in range(k):
@@ -547,7 +558,12 @@ def topology(draw, eq_json, n=(2, 5), extra_max=3, parallel=False, chain_kw=None
         connections.append({'from_node': f'roadm R{i}', 'to_node': f'trx R{i}'})
     sym = draw(st.booleans()) if symmetric is None else symmetric
     for lid, (a, b) in enumerate(links):
-        ab = draw(chain(lid, 'ab', eq_json, **(chain_kw or {})))
+        ckw = dict(chain_kw or {})
+        if lid == 0:
+            # the first link always has a fibre span, hence amplifiers: a network without a single amplifier has no band to
+            # build spectrum maps from (find_network_freq_range: min() of an empty list) - an input outside of what is claimed
+            ckw.pop('fibreless', None)
+        ab = draw(chain(lid, 'ab', eq_json, **ckw))
         if sym:
             # mirror the fibre parameters on the way back
             ba = []
@@ -557,7 +573,7 @@ def topology(draw, eq_json, n=(2, 5), extra_max=3, parallel=False, chain_kw=None
                 ba.append(c)
             # booster/preamp naming is positional only; keep uids unique
         else:
-            ba = draw(chain(lid, 'ba', eq_json, **(chain_kw or {})))
+            ba = draw(chain(lid, 'ba', eq_json, **ckw))
         for src, dst, els in ((a, b, ab), (b, a, ba)):
             seq = [f'roadm R{src}'] + [e['uid'] for e in els] + [f'roadm R{dst}']
             elements.extend(els)
